@@ -94,6 +94,7 @@ GhostInit ==
     termAt   |-> -1,           \* time of the first shutdown stimulus (accepted quit / TERM INT QUIT)
     closed   |-> {},
     bootDone |-> FALSE, booted |-> FALSE,
+    idleSince|-> 0,            \* since when nothing has stood in the way of a periodic check (boot over, slot free)
     lastSpawn|-> [w |-> "", t |-> -1, prio |-> 0, first |-> -1],
     sigTargets |-> {},         \* pids signalled while handling the current signal/kill request
     snapk    |-> <<>>,         \* the kernel table when the current request arrived
@@ -314,6 +315,7 @@ Upd(g, o, ln, o2) ==
                !.closed = IF ln.k = "close" THEN @ \cup {ln.x} ELSE @,
                !.booted = @ \/ ln.k = "boot",
                !.bootDone = @ \/ (rel /\ g.op.slot = "arbiter_start_watchers" /\ g.op.cmd = "internal"),
+               !.idleSince = IF o2.slot # "" \/ ~g.bootDone \/ ln.k = "block" THEN ln.t ELSE @,
                !.lastSpawn = IF ln.k = "spawn"
                              THEN [w |-> ln.x, t |-> ln.t, prio |-> CfgW(g, ln.x).prio,
                                    first |-> IF @.w = ln.x THEN @.first ELSE ln.t]
@@ -359,6 +361,12 @@ C01_converge(g2, o2) ==
       \A i \in WIdx(o2) : LET wr == o2.w[i] IN
          (wr.st = "active" /\ wr.resp /\ ~wr.od /\ wr.mage = 0 /\ Stopping(wr) = {})
             => Cardinality(Live(o2, wr)) = wr.np
+\* the periodic check is there at all: with a check delay configured, no two check delays pass with the slot free
+\* and no check
+C01_period(g, o2, ln) ==
+   (ln.cb = 0 /\ ln.k \in {"tick", "end"} /\ g.bootDone /\ g.cfg.cd > 0 /\ g.closed = {} /\ ~o2.stopping /\ ~g.blocked
+      /\ o2.slot = "")
+     => ln.t - g.idleSince <= 2 * g.cfg.cd + 100
 C01_fixpoint(g, ln) == ~(g.inPass /\ g.passClean /\ ln.k \in (SigKinds \cup {"spawn"}))
 C01_fresh(g, o, o2) ==
    (o.slot # "" /\ o2.slot # o.slot /\ g.op.slot \in {"watcher_restart", "watcher_reload", "arbiter_restart",
@@ -673,6 +681,7 @@ C08_done(g, o, ln) ==
 ---------------------------------------------------------------------------
 Clauses(g, o, ln, o2, g2) ==
   [ C01_range |-> C01_range(o2), C01_converge |-> C01_converge(g2, o2), C01_fixpoint |-> C01_fixpoint(g, ln),
+    C01_period |-> C01_period(g, o2, ln),
     C01_fresh |-> C01_fresh(g, o, o2),
     C02_complete |-> C02_complete(g2, o, o2), C02_opdone |-> C02_opdone(g, o, o2),
     C02_stays |-> C02_stays(g, o, ln, o2),
